@@ -18,12 +18,12 @@ func init() {
 			"each `go` statement has a deferred completion signal, a stop function that signals and then waits for it, and a start flag set under the lock.",
 		DoesNotDecide: "equality of parallel and sequential results; races that need aliasing between distinct handles; anything the race detector would need a schedule for",
 		Rules: map[string]string{
-			"C18.1": "a pooled buffer that is released does not escape (store to field/element/map, return, append into a kept slice) before or after the release without being re-acquired",
+			"C18.1":  "a pooled buffer that is released does not escape (store to field/element/map, return, append into a kept slice) before or after the release without being re-acquired",
 			"C18.15": "a pooled buffer goes back to the pool once: for every utils.GetBuffer no path passes two releases of that buffer (explicit, or explicit and deferred) without acquiring it again (ReleaseBuffer(buf) for ReleaseBuffer(entryBuf) in the entry loop of ReadBTreeEntries puts the node header's buffer into the pool once per entry and once more on return: two handles reading in parallel receive the same backing array)",
-			"C18.2": "no package-level variable of the library is written outside its declaration or init (handles share no mutable global state)",
-			"C18.4": "guarded-by: every access to a field of the frozen guarded table holds the owner's mutex (constructor writes to a fresh object excepted)",
-			"C18.5": "state shared between a background goroutine and foreground calls is accessed under a common lock on both sides",
-			"C18.6": "goroutine lifecycle: deferred completion signal, stop = signal then wait, start flag tested and set under the lock, stop cannot signal twice",
+			"C18.2":  "no package-level variable of the library is written outside its declaration or init (handles share no mutable global state)",
+			"C18.4":  "guarded-by: every access to a field of the frozen guarded table holds the owner's mutex (constructor writes to a fresh object excepted)",
+			"C18.5":  "state shared between a background goroutine and foreground calls is accessed under a common lock on both sides",
+			"C18.6":  "goroutine lifecycle: deferred completion signal, stop = signal then wait, start flag tested and set under the lock, stop cannot signal twice",
 		},
 	}, ruleC18Guarded, ruleC18Shared, ruleC18Pool, ruleC18Globals, ruleC18Lifecycle)
 
